@@ -16,7 +16,7 @@ class LdrsbImmediate(Opcode):
     def execute(self, processor):
         if processor.condition_passed():
             try:
-                processor.null_check_if_thumbee(15)
+                processor.null_check_if_thumbee(self.n)
             except EndOfInstruction:
                 pass
             else:
